@@ -73,8 +73,8 @@ def menu_entry(k):
     m["n_prop_steps"] = r.choice([1, 2, 5])
     m["n_ene_blocks"] = r.choice([1, 2])
     if kind == "blocks":
-        m["entry"] = r.choice(["plain", "plain", "ad_nosr_norot", "ad_norot"])
-        m["n_sr_blocks"] = r.choice([1, 2])
+        m["entry"] = r.choice(["plain", "plain", "ad_nosr_norot", "ad_norot", "ad_norot"])
+        m["n_sr_blocks"] = r.choice([1, 2, 3])
     if kind == "driver":
         m.update(R=r.choice([1, 2, 3]), n_blocks=r.choice([2, 3]), n_sr_blocks=r.choice([1, 2]), n_eql=1, n_ene_blocks_eql=1, n_sr_blocks_eql=r.choice([1, 2]),
                  ad_mode=None, orbital_rotation=True, do_sr=True)
@@ -135,7 +135,9 @@ def gen_cfg(seed, index, tier):
             r = rng.randrange(m["R"])
             eql = 50 * m["n_sr_blocks_eql"] * m["n_ene_blocks_eql"] * m["n_eql"]
             per = m["n_prop_steps"] * m["n_ene_blocks"] * m["n_sr_blocks"]
-            step = eql + rng.randrange(per)
+            # either inside the first sampling block or somewhere in the equilibration phase
+            step = eql + rng.randrange(per) if rng.random() < 0.5 else rng.randrange(eql)
+            m["kill_phase"] = "sampling" if step >= eql else "equilibration"
             ncomp = m.get("nchol") or m.get("n_sites")
             m["kill_rank"] = r
             m["faults_by_rank"] = {str(q): [] for q in range(m["R"])}
@@ -406,13 +408,14 @@ def _exec_driver(cfg, ctx):
                         total_weight_all_ranks_previous_block=total_alive_prev)
         # the running estimate that every rank's shift is reset to stays finite while any
         # walker in the world is alive (a rank that lost its population must not poison it)
-        if total_alive_prev is not None and total_alive_prev > 0:
+        if (total_alive_prev is not None and total_alive_prev > 0) or (total_alive_prev is None and alive > 0):
             for r in range(R):
                 ee = float(np.asarray(out["pickles"][r][n]["e_estimate"]))
                 if not np.isfinite(ee):
                     inv.bad("weights.running_estimate_not_finite_while_walkers_alive", f"block {n} rank {r}", e_estimate=ee,
                             total_weight_all_ranks_previous_block=total_alive_prev, killed_rank=cfg.get("kill_rank"),
-                            weights_previous_block=[np.asarray(out["pickles"][q][n - 1]["weights"]).tolist() for q in range(R)])
+                            kill_phase=cfg.get("kill_phase"),
+                            weights_this_block=[np.asarray(out["pickles"][q][n]["weights"]).tolist() for q in range(R)])
                     break
         if cfg.get("kill_rank") is not None and n == 0:
             wk = np.asarray(out["pickles"][cfg["kill_rank"]][0]["weights"])
